@@ -317,5 +317,7 @@ def run(chk, S: Session):
     rb2 = chk.rule("R-C07-B2", "the acceptance quantity is a norm over the state's components: residual estimates whose shape matches the reference only by coincidence are rejected "
                    "(guard-table rows of C20 for the residual error estimate, each evaluated under its declared corruption)", floor=2)
     borrow(chk, S, rb2, "C20", lambda r, c: r == "R-C20-1" and c.startswith("residual error estimate") and "single-output" not in c)
+    rb4 = chk.rule("R-C07-B4", "the state-based estimate conditions on the residual with an exact solve for the kernel's upper-triangular factor (rule of C08)", floor=1)
+    borrow(chk, S, rb4, "C08", lambda r, c: r == "R-C08-5" and c.startswith("reversal with solve_triu=linalg.") and "error_state_std" in c)
     rb3 = chk.rule("R-C07-B3", "'computed from the previous mean only': the first attempt extrapolates from the state that solver.init returns, which is the updated one when an initial constraint is given (rule of C02)", floor=3)
     borrow(chk, S, rb3, "C02", lambda r, c: r == "R-C02-2" and "init" in c)
